@@ -3,6 +3,7 @@ import re
 import vlib
 import tie
 import gen_edit
+import gen_wire
 
 RULE = ("starting message (API-built or parsed from wire bytes) + up to 40 edits "
         "{insert, update, remove, token} + optional coap_pdu_duplicate, exact-fit allocation "
@@ -43,6 +44,27 @@ def norm(dump, proto):
     return re.sub(r"^t=\d+ (c=\d+) m=\d+", r"t=0 \1 m=0", dump)
 
 
+def canonical(dump):
+    """canonical encoding (hex) of a printed dump whose values are all printed in full, else None"""
+    d = gen_edit.parse_dump(dump)
+    vals = [d["k"], d["p"]] + [v for _, v in d["o"]]
+    if any(v.startswith("#") for v in vals):
+        return None
+    tok = gen_edit.tok_bytes(d["k"])
+    body = b""
+    prev = 0
+    for n, v in d["o"]:
+        body += gen_wire.py_opt(n - prev, gen_edit.tok_bytes(v))
+        prev = n
+    pl = gen_edit.tok_bytes(d["p"])
+    if pl:
+        body += b"\xff" + pl
+    tl = len(tok)
+    ta = tok if tl < 13 else bytes([tl - 13]) + tok if tl < 269 else \
+        bytes([(tl - 269) >> 8, (tl - 269) & 0xff]) + tok
+    return gen_edit.show(ta + body)
+
+
 def oracle(line, out, in_scope, notes=None):
     """The property evaluated on one driver's output alone.  -> None or a description."""
     if out.startswith("start=") and "[" not in out:
@@ -65,6 +87,10 @@ def oracle(line, out, in_scope, notes=None):
             return ("edit %d (%s): returned %s, message [%s]; the edit applied to the message "
                     "before it gives %s, [%s]" % (i + 1, " ".join(e)[:80], r, dump, er,
                                                   gen_edit.fmt_dump(ed)))
+        can = canonical(dump)
+        if can is not None and not can.startswith("#") and o["steps"][i + 1][2] != can:
+            return ("after edit %d (%s) the message is [%s] but the buffer holds %s, not its "
+                    "encoding %s" % (i + 1, " ".join(e)[:80], dump, o["steps"][i + 1][2], can))
         if steps_scope[i + 1] and o["steps"][i + 1][3] != "=":
             return ("after edit %d (%s) the message is [%s] but its bytes re-parse to %s" %
                     (i + 1, " ".join(e)[:80], dump, o["steps"][i + 1][3]))
@@ -115,6 +141,26 @@ def sweep_lines(tier):
     return out
 
 
+def resize_lines(r, n):
+    """coap_pdu_check_resize on (alloc_size, max_size, size): around alloc, 2*alloc, 256, max"""
+    out = []
+    for _ in range(n):
+        alloc = r.choice([0, 1, 4, 100, 127, 128, 129, 255, 256, 257, 300, 511, 512, 513, 1000, 4096,
+                          65536, r.randrange(0, 3000)])
+        w = r.random()
+        if w < 0.3:
+            mx = 0
+        else:
+            mx = max(alloc, r.choice([alloc, alloc + 1, alloc + 2, 2 * alloc - 1, 2 * alloc, 2 * alloc + 1,
+                                      256, 257, 300, 512, 1024, 4096, 70000, 4 * alloc + 3, 1]))
+            if mx == 0:
+                mx = 1
+        base = r.choice([alloc, 2 * alloc, 4 * alloc, 256, 512, mx, mx, 1 << r.randrange(0, 21)])
+        size = max(0, base + r.choice([-2, -1, 0, 1, 2]))
+        out.append("resize %d %d %d" % (alloc, mx, size))
+    return out
+
+
 def main(run):
     run.cov["trusted_base"] = vlib.TRUSTED_COMMON + [
         "model: Edit/EdBytes.v (byte-level transcription of coap_insert_option, coap_update_option, "
@@ -127,6 +173,22 @@ def main(run):
     run.prove()
     model = vlib.build_model()
     drv = vlib.build_driver("h_edit", ["h_edit.c"])
+    if getattr(run, "replay", None):
+        lines = [l[6:].strip() for l in open(run.replay) if l.startswith("case: ")] or \
+            [l.strip() for l in open(run.replay) if l.startswith("c04 ")]
+        a, b, _ = tie.run_both(model, drv, lines)
+        for ln, mo, co in zip(lines, a, b):
+            print("case : %s\nmodel: %s\nimpl : %s" % (ln, mo, co))
+            bad = "implementation crashes" if co.startswith("CRASH") else oracle(ln, co, scope_of(mo))
+            if bad:
+                run.violation("implementation violates the property: " + bad,
+                              "case: %s\nmodel: %s\nimpl : %s\n" % (ln, mo, co), tag="replay")
+            elif mo != co:
+                run.violation("implementation differs from the proved byte-level model",
+                              "case: %s\nmodel: %s\nimpl : %s\n" % (ln, mo, co), tag="replay",
+                              no_input=True)
+            run.count(ln, True)
+        return
     r = tie.rng_for(run, "c04")
     n = 3000 if run.tier == "quick" else 60000
     cases = []
@@ -138,6 +200,8 @@ def main(run):
         cases.append(gen_edit.line_of(pre, edits, dup))
     nsw = len(cases)
     cases += sweep_lines(run.tier)
+    nrs = len(cases)
+    cases += resize_lines(r, 2000 if run.tier == "quick" else 40000)
     om, oc, crashes = tie.run_both(model, drv, cases)
     run.cov["driver_crashes"] = len(crashes)
     run.cov["leaf_sweep"] = {"cases": len(cases) - nsw,
@@ -145,7 +209,33 @@ def main(run):
                                      + ("every K in 1..65535" if run.tier == "thorough" else
                                         "K in 1..699 and every 97th K up to 65535")}
     nbad = 0
-    for i, ln in enumerate(cases):
+    run.cov["check_resize_cases"] = len(cases) - nrs
+    for i in range(nrs, len(cases)):
+        # coap_pdu_check_resize: verdict = "fits", enough bytes afterwards, alloc_size <= max_size kept
+        ln, mo, co = cases[i], om[i], oc[i]
+        run.count(ln, False)
+        _, alloc, mx, size = ln.split()
+        alloc, mx, size = int(alloc), int(mx), int(size)
+        run.hist("check_resize", co.split(" ")[0])
+        bad = None
+        m = re.match(r"^([01]) (\d+)$", co)
+        if not m:
+            bad = "unreadable result " + co
+        else:
+            ok, a2 = int(m.group(1)), int(m.group(2))
+            fits = mx == 0 or size <= mx
+            if ok != int(fits) or (ok and not (a2 >= size and a2 >= alloc and (mx == 0 or a2 <= mx))) \
+               or (not ok and a2 != alloc):
+                bad = "coap_pdu_check_resize(alloc_size=%d, max_size=%d, size=%d) returned %d, alloc_size %d" % \
+                    (alloc, mx, size, ok, a2)
+        if bad or mo != co:
+            nbad += 1
+            if nbad <= 3:
+                run.violation("implementation violates the property: " + bad if bad else
+                              "coap_pdu_check_resize differs from the proved model",
+                              "case: %s\nmodel: %s\nimpl : %s\n" % (ln, mo, co),
+                              tag="resize%d" % nbad, no_input=not bad)
+    for i, ln in enumerate(cases[:nrs]):
         mo, co = om[i], oc[i]
         scope = scope_of(mo)
         notes = []
